@@ -66,7 +66,7 @@ fn reference(r: &Reply) -> Want {
     }
 }
 
-fn run_case(reply: &Reply, inter: usize, acc: &mut Acc) -> (OpResult, OpResult) {
+fn run_case(reply: &Reply, inter: usize, pace_ms: u64, acc: &mut Acc) -> (OpResult, OpResult) {
     let mut ctx = Ctx::new(vec![], vec![], 0);
     let sh: Sh = Rc::new(RefCell::new(std::mem::replace(&mut ctx, Ctx::new(vec![], vec![], 0))));
     let rp = reply.clone();
@@ -76,9 +76,16 @@ fn run_case(reply: &Reply, inter: usize, acc: &mut Acc) -> (OpResult, OpResult) 
         }
         let r = Replies { table: t.table };
         let mut s = vec![r.ack()];
+        let pace = |s: &mut Vec<Step>| {
+            if pace_ms > 0 {
+                s.push(Step::Delay(std::time::Duration::from_millis(pace_ms)));
+            }
+        };
         for _ in 0..inter {
+            pace(&mut s);
             s.push(r.intermediate(0x17));
         }
+        pace(&mut s);
         match &rp {
             Reply::Abort(c) => s.push(r.abort(*c)),
             Reply::Status { uid, apps, tlv, rich } => {
@@ -172,7 +179,6 @@ pub fn run(run: &RunInfo) -> Summary {
     for c in 0..=255u8 {
         replies.push(Reply::Abort(c));
     }
-    let inters: Vec<usize> = vec![0, 1, 2];
     let mut acc = par_for(replies.len(), |ix, acc| {
         let reply = &replies[ix];
         let key = format!("c18/{reply:?}");
@@ -181,8 +187,13 @@ pub fn run(run: &RunInfo) -> Summary {
         }
         let want = reference(reply);
         let mut first: Option<String> = None;
-        for &k in &inters {
-            let (a, b) = run_case(reply, k, acc);
+        // every packet of the reply either at once or 16 s after the previous one (the time-out of a
+        // card read is read_card_timeout + 2 = 17 s per packet)
+        for &(k, pace_ms) in &[(0usize, 0u64), (1, 0), (2, 0), (0, 16_000), (1, 16_000), (2, 16_000)] {
+            if pace_ms > 0 {
+                acc.count("w_slow", 1);
+            }
+            let (a, b) = run_case(reply, k, pace_ms, acc);
             acc.count("executions", 1);
             let mut problems = vec![];
             if let Some(p) = judge(&want, &a) {
@@ -222,11 +233,12 @@ pub fn run(run: &RunInfo) -> Summary {
             }
             acc.set("outcomes", h64(&(a.short(), &key)));
             if !problems.is_empty() {
-                acc.violation(viol(format!("{key}/intermediates={k}"), format!("terminal reply to read card: {reply:?} after {k} intermediate statuses\n{}", problems.join("\n")), ix as u64));
+                acc.violation(viol(format!("{key}/intermediates={k}/pace={pace_ms}"), format!("terminal reply to read card: {reply:?} after {k} intermediate statuses, each packet {pace_ms} ms after the previous one\n{}", problems.join("\n")), ix as u64));
             }
         }
     });
     for (c, w) in [
+        ("w_slow", "replies paced one second inside the per-packet time-out"),
         ("w_bank", "bank cards classified"),
         ("w_membership", "membership ids derived from the UID"),
         ("w_long_uid", "UIDs longer than 14 digits cut"),
@@ -246,9 +258,10 @@ pub fn run(run: &RunInfo) -> Summary {
         transitions: acc.get("transitions"),
         traces_validated: execs,
         distinct_nontrivial: acc.set_len("outcomes"),
-        rule: format!("real Feig::read_card (called twice) against the simulated terminal for {} replies: UID absent or of 0..=20 bytes with every count of leading zero bytes and two tail patterns (digits only / hex letters); application list absent, one entry with id, two with ids, one without id, one without followed by one with id, combined with four UIDs; status without TLV container; replies accompanied by every other field a terminal reports with a card (track data, 12-digit pre-authorisation limit, 20-digit card number, ATS/ATQA/SAK ...); all 256 abort codes; each preceded by 0, 1 and 2 intermediate statuses. Oracle: the reference function of the statement; both presentations and all intermediate counts must agree", replies.len()),
+        rule: format!("real Feig::read_card (called twice) against the simulated terminal for {} replies: UID absent or of 0..=20 bytes with every count of leading zero bytes and two tail patterns (digits only / hex letters); application list absent, one entry with id, two with ids, one without id, one without followed by one with id, combined with four UIDs; status without TLV container; replies accompanied by every other field a terminal reports with a card (track data, 12-digit pre-authorisation limit, 20-digit card number, ATS/ATQA/SAK ...); all 256 abort codes; each preceded by 0, 1 and 2 intermediate statuses, every packet sent at once or 16 s after the previous one (one second inside the per-packet time-out). Oracle: the reference function of the statement; both presentations and all intermediate counts must agree", replies.len()),
         exhaustive: true,
         required_witnesses: vec![
+            "replies paced one second inside the per-packet time-out".into(),
             "bank cards classified".into(),
             "membership ids derived from the UID".into(),
             "UIDs longer than 14 digits cut".into(),
